@@ -284,6 +284,20 @@ def azblob_dir():
     return out.strip().splitlines()[-1] if rc == 0 and out.strip() else ""
 
 
+def crash_text(out):
+    """The panic / fatal error part of a dead test process's output ('' if it did not crash that way)."""
+    m = re.search(r"^(panic: |fatal error: |unexpected fault address)", out, re.M)
+    if not m:
+        return ""
+    return out[m.start():m.start() + 6000]
+
+
+def crash_summary(text):
+    first = text.splitlines()[0] if text else ""
+    fr = re.search(r"^(github\.com/mspnp/go-batcher\S*)\(", text, re.M)
+    return "%s%s" % (first[:200], (" in " + fr.group(1)) if fr else "")
+
+
 def run_family(exe, test, family, seed, n, outdir, shards=None, extra_env=None, watchdog=25):
     """Runs n scenarios of a family in parallel shards; returns list of history files.
     A shard that ends with status 3 (watchdog: real deadlock) is resumed after the hung scenario."""
@@ -321,6 +335,17 @@ def run_family(exe, test, family, seed, n, outdir, shards=None, extra_env=None, 
                 continue
             if p.returncode != 0:
                 logs.append("shard %d-%d: exit %d\n%s" % (a, b, p.returncode, p.stdout[-3000:]))
+                # the process died (a panic on some goroutine, a fatal runtime error): the scenario that was running
+                # is the last one whose history file exists; its header is the scenario, so the file replays the crash
+                crashed = None
+                for i in range(frm, b):
+                    if os.path.exists(os.path.join(outdir, "%s-%d-%05d.hist" % (family, seed, i))):
+                        crashed = i
+                if crashed is not None and crash_text(p.stdout):
+                    f = os.path.join(outdir, "%s-%d-%05d.hist" % (family, seed, crashed))
+                    open(f + ".crash", "w").write(crash_text(p.stdout))
+                    frm = crashed + 1
+                    continue
             break
 
     with ThreadPoolExecutor(max_workers=NCPU) as ex:
@@ -334,7 +359,10 @@ def run_script(exe, test, script, outdir, watchdog=25):
     env = dict(GOENV, VERIF_OUT=outdir, VERIF_SCRIPT=script, VERIF_WATCHDOG_S=str(watchdog))
     p = subprocess.run([exe, "-test.run", "^%s$" % test, "-test.timeout", "0"], env=env,
                        stdout=subprocess.PIPE, stderr=subprocess.STDOUT, text=True)
-    return os.path.join(outdir, "replay.hist"), p.returncode, p.stdout
+    hist = os.path.join(outdir, "replay.hist")
+    if p.returncode not in (0, 3) and crash_text(p.stdout) and os.path.exists(hist):
+        open(hist + ".crash", "w").write(crash_text(p.stdout))
+    return hist, p.returncode, p.stdout
 
 
 # ---------------------------------------------------------------- replay
